@@ -189,6 +189,9 @@ func (x *Exec) verify(fn *ssa.Function, c *Contract) {
 	}
 	for _, fv := range fn.FreeVars {
 		v := st.freshVal("fv."+fv.Name(), fv.Type())
+		if v.K == KPtr {
+			st.assume(not(eq(v.S, Tm{"0", SInt}))) // captured variables are held by (non-nil) reference
+		}
 		fr.binds = append(fr.binds, v)
 	}
 	env := x.callEnv(st, c, fn.Signature, fn, args, fr.binds)
